@@ -86,6 +86,36 @@ def segment_of(events, idx):
     return events[a:b + 1]
 
 
+def run_harness(ctx, bindir, args, trace_file, env):
+    """run the harness; if the process is killed by a signal inside the code under test (e.g. SIGSEGV after an
+    out-of-bounds access) that is data: a Crash event is appended to the partial trace and TLC judges it"""
+    import subprocess
+    e = dict(os.environ, RUST_BACKTRACE="0")
+    e.update({k: str(v) for k, v in env.items()})
+    try:
+        r = subprocess.run([os.path.join(bindir, "transport")] + [str(a) for a in args], env=e,
+                           stdout=subprocess.PIPE, stderr=subprocess.PIPE, text=True, timeout=3600)
+    except subprocess.TimeoutExpired:
+        raise C.ToolError("harness transport timed out")
+    if r.returncode < 0:
+        evs = []
+        if os.path.exists(trace_file):
+            with open(trace_file) as f:
+                for line in f:
+                    try:
+                        evs.append(json.loads(line))
+                    except ValueError:
+                        break           # torn last line
+        last = next((x for x in reversed(evs) if x.get("e") in ("Op", "Reset")), {})
+        evs.append({"e": "Crash", "signal": -r.returncode, "op": last.get("op", "start"), "seg": last.get("seg", 0)})
+        C.write_ndjson(trace_file, evs)
+        C.log("harness killed by signal %d: recorded as a Crash event" % -r.returncode)
+    elif r.returncode != 0:
+        C.log(r.stdout[-2000:])
+        C.log(r.stderr[-2000:])
+        raise C.ToolError("harness transport %s exited %d" % (" ".join(map(str, args)), r.returncode))
+
+
 def validate(ctx, trace_file, what, scenarios=None, rerun=None):
     """judge one log with Trace_Transport.tla; record violations of this property; return stats"""
     events = C.read_ndjson(trace_file)
@@ -319,7 +349,7 @@ def run(ctx):
             cfg = write_cfg(ctx, name, consts, inv, export=export)
             cfgs.append(cfg)
             ign = READER_ACTIONS if consts["Kinds"] == "MC_KindsW" else ()
-            r = C.tlc_mc(ctx, "MC_Transport", cfg=cfg, workers=8, timeout=1500, ignore_uncovered=ign)
+            r = C.tlc_mc(ctx, "MC_Transport", cfg=cfg, workers=8, timeout=1800 if ctx.quick else 7200, ignore_uncovered=ign)
             for v in r["violated"]:
                 if v != "Export":
                     # a counterexample of I => A: a design-level defect candidate of the modelled algorithm
@@ -366,7 +396,7 @@ def run(ctx):
     sf = ctx.path("scenarios.ndjson")
     C.write_ndjson(sf, sample)
     rt = ctx.path("replay.ndjson")
-    C.run_bin(bindir, "transport", ["replay", sf, rt], env={"VERIF_SEED": ctx.seed})
+    run_harness(ctx, bindir, ["replay", sf, rt], rt, {"VERIF_SEED": ctx.seed})
     ev_replay, _ = validate(ctx, rt, "replay of TLC behaviours", scenarios=sample)
 
     # ---- 3. seeded random driver far beyond the model's bounds, in chunks of whole runs
@@ -377,7 +407,7 @@ def run(ctx):
     while steps > 0:
         n = min(chunk, steps)
         rf = ctx.path("random_%d.ndjson" % part)
-        C.run_bin(bindir, "transport", ["random", rf, n], env={"VERIF_SEED": ctx.seed * 1000 + part})
+        run_harness(ctx, bindir, ["random", rf, n], rf, {"VERIF_SEED": ctx.seed * 1000 + part})
         evs, _ = validate(ctx, rf, "random driver seed %d" % (ctx.seed * 1000 + part),
                           rerun={"cmd": "random", "steps": n, "seed": ctx.seed * 1000 + part})
         ev_random += evs if part == 0 else []
@@ -450,14 +480,14 @@ def run_replay_file(ctx, bindir):
         sf = ctx.path("scenarios.ndjson")
         C.write_ndjson(sf, [sc["model_scenario"]])
         rt = ctx.path("replay.ndjson")
-        C.run_bin(bindir, "transport", ["replay", sf, rt], env={"VERIF_SEED": ctx.seed})
+        run_harness(ctx, bindir, ["replay", sf, rt], rt, {"VERIF_SEED": ctx.seed})
         validate(ctx, rt, "re-execution of " + sc.get("origin", "?"), scenarios=[sc["model_scenario"]])
     elif sc.get("rerun") and sc.get("events"):
         # the random driver is deterministic in (seed, steps): run it again on the current tree and
         # judge the same scenario
         rr = sc["rerun"]
         full = ctx.path("random_full.ndjson")
-        C.run_bin(bindir, "transport", ["random", full, rr["steps"]], env={"VERIF_SEED": rr["seed"]})
+        run_harness(ctx, bindir, ["random", full, rr["steps"]], full, {"VERIF_SEED": rr["seed"]})
         segid = sc["events"][0]["seg"]
         evs = [e for e in C.read_ndjson(full) if e.get("seg") == segid]
         if not evs:
